@@ -11,7 +11,7 @@
    the theorems quantify over them. *)
 From Coq Require Import List NArith String Bool.
 Import ListNotations.
-From VF Require Import gen.Gen_C09 C09.Model C09.Spec C09.Proofs C09.Subs.
+From VF Require Import gen.Gen_C09 C09.Model C09.Spec C09.Proofs C09.Proofs2 C09.Subs.
 Local Open Scope N_scope.
 
 (* ---------- obligations on the tables regenerated from /repo on every run (finite, by computation) ---------- *)
@@ -295,4 +295,92 @@ Example faults_nonvacuous :
   disciplined didex_proto s0 dx = true /\ all_steps_ok didex_proto s0 dx = true /\
   map fst (snd (run didex_proto s0 dx)) = [RAction; ROk; ROk; RReject] /\
   cur didex_proto (final didex_proto s0 dx) 1 = 5.
+Proof. vm_compute. repeat split. Qed.
+
+
+(* ====================== wave 5 ====================== *)
+
+(* SOURCE LEVEL (go/ast, finite, by computation): the state list the export hooks enumerate -- over which every table
+   above is executed -- is exactly the set of state types each package declares (types with a CanTransitionTo method,
+   by the constant their Name() returns): a state added to states.go cannot stay outside the tables *)
+Theorem declared_states_listed :
+  declared_listed_b ic_names ic_declared = true /\ declared_listed_b pp_names pp_declared = true /\
+  declared_listed_b intro_names intro_declared = true /\ declared_listed_b didex_names didex_declared = true /\
+  declared_listed_b legacy_names legacy_declared = true.
+Proof. vm_compute. repeat split. Qed.
+Print Assumptions declared_states_listed.
+
+(* DID Exchange, legacy Connection: the follow-up of every ExecuteInbound, per message type (read off the method bodies
+   on every run), covers every (state, message type); each follow-up other than noop is the PUBLISHED one (RFC 0023 /
+   0160 under the name map), is a CanTransitionTo pair and an edge of the published graph; every published follow-up is
+   there; terminal states have none.  The machine of these two protocols PREDICTS its follow-ups from this table. *)
+Theorem follow_refines :
+  follow_refines_b didex_names didex_msgs didex_spec didex_follow_spec didex_edges didex_follow = true /\
+  follow_refines_b legacy_names legacy_msgs legacy_spec legacy_follow_spec legacy_edges legacy_follow = true /\
+  p_follow didex_proto = Some didex_follow /\ p_follow legacy_proto = Some legacy_follow.
+Proof. vm_compute. repeat split. Qed.
+Print Assumptions follow_refines.
+
+(* FULL (no busy discipline, no guard on faults): for ANY protocol tables whose terminal states are stuck, every
+   history -- any length, threads, messages in any order and any number of times, any wire identifiers, any faults, any
+   restarts -- in which the decisions on action events are taken through the GUARDED API (Accept: refused unless the
+   thread is still in the state the event was raised in; the decision may be repeated, late, after completion) respects
+   the graph at every step.  With `paths_refuted` this locates the defect exactly: the unguarded callbacks. *)
+Theorem paths_full_guarded_decisions : forall p, terminal_stuck_b p = true ->
+  forall ops, forallb api_op ops = true -> all_steps_ok p s0 ops = true.
+Proof. intros p H ops Ha. exact (run_steps_ok0 p H ops s0 (inv0_s0 p) Ha). Qed.
+Print Assumptions paths_full_guarded_decisions.
+
+(* FULL: in such histories a terminal state is never left *)
+Theorem terminal_stable_guarded_decisions : forall p, terminal_stuck_b p = true ->
+  forall ops1 ops2 t, forallb api_op (ops1 ++ ops2) = true ->
+  terminal p (cur p (final p s0 ops1) t) = true ->
+  cur p (final p s0 (ops1 ++ ops2)) t = cur p (final p s0 ops1) t.
+Proof.
+  intros p H ops1 ops2 t Ha Ht. destruct (forallb_api_app ops1 ops2 Ha) as [H1 H2].
+  rewrite (final_app p). exact (run_terminal0 p H ops2 _ t (run_inv0 p H ops1 s0 (inv0_s0 p) H1) H2 Ht).
+Qed.
+Print Assumptions terminal_stable_guarded_decisions.
+
+(* HEADLINE for the two connection protocols (FULL, in the published graph's terms, follow-ups predicted from the
+   generated table): DID Exchange and legacy Connection threads driven by messages and API decisions only move along
+   the PUBLISHED graph and never leave completed / abandoned *)
+Theorem connection_paths_in_published_graph :
+  (forall ops, forallb api_op ops = true ->
+     all_steps_ok_rel (spec_edge didex_names didex_spec) didex_proto s0 ops = true) /\
+  (forall ops, forallb api_op ops = true ->
+     all_steps_ok_rel (spec_edge legacy_names legacy_spec) legacy_proto s0 ops = true).
+Proof.
+  split; intros ops Ha; (apply all_steps_ok_mono; [intros a b; apply (sedge_in_published_graph a b)|]);
+    apply paths_full_guarded_decisions; try exact Ha; vm_compute; reflexivity.
+Qed.
+Print Assumptions connection_paths_in_published_graph.
+
+(* non-vacuity: DID Exchange inviter (thread 1): the request with a failing state write, with a failing state read, then
+   accepted, then duplicated (refused); API accept; restart; late accept (refused); ack with a failing write of
+   `completed` (announced, not persisted), ack again; accept after completion (refused); request after completion
+   (refused).  No tape entry is read: the follow-ups come from the generated table. *)
+Example guarded_decisions_nonvacuous :
+  let putf := {| f_get := false; f_tp := false; f_put := Some 0%nat; f_act := None |} in
+  let getf := {| f_get := true; f_tp := false; f_put := None; f_act := None |} in
+  let dx := [Msg false 2 false false 1 putf [Some 0]; Msg false 2 false false 1 getf [Some 0];
+             Msg false 2 false false 1 nofault [Some 0]; Msg false 2 false false 1 nofault [Some 0];
+             Accept 0 [Some 0]; Restart; Accept 0 [Some 0]; Msg false 4 false false 1 putf [];
+             Msg false 4 false false 1 nofault []; Accept 0 [Some 0]; Msg false 2 false false 1 nofault [Some 0]] in
+  forallb api_op dx = true /\ all_steps_ok didex_proto s0 dx = true /\
+  snd (run didex_proto s0 dx) =
+    [(ROk, [3]); (RReject, []); (RAction, [3]); (RReject, []); (ROk, [4]); (ROk, []); (RReject, []); (ROk, [5]);
+     (ROk, [5]); (RReject, []); (RReject, [])] /\
+  cur didex_proto (final didex_proto s0 dx) 1 = 5.
+Proof. vm_compute. repeat split. Qed.
+
+(* DID Exchange invitee (thread 2): Stop whose write of `abandoned` fails announces nothing (abandon() writes first);
+   after a restart the callback is gone; the API decision still works from the stored event, also after a first
+   attempt failed on the content of the message *)
+Example abandon_direct_nonvacuous :
+  let putf := {| f_get := false; f_tp := false; f_put := Some 0%nat; f_act := None |} in
+  let ops := [Msg false 0 true false 2 nofault [Some 0]; Stop 0 putf []; Restart; Stop 0 nofault []; Accept 0 [None];
+              Accept 0 [Some 0]] in
+  snd (run didex_proto s0 ops) = [(RAction, [2]); (ROk, []); (ROk, []); (RNoEvent, []); (RErr, [3]); (ROk, [3])] /\
+  cur didex_proto (final didex_proto s0 ops) 2 = 3.
 Proof. vm_compute. repeat split. Qed.
